@@ -300,3 +300,79 @@ func zzC14fExpiry() {
 	}
 	vf.Reach("end")
 }
+
+// C14.k: a whole message from a peer that does not follow the sender's layout: 2..3 datagrams with
+// complete headers and in-range indices whose bodies have arbitrary, mutually inconsistent lengths
+// (0..5 bytes each: a long first segment followed by short ones, empty ones, a long last one), in any
+// arrival order. Receive never panics and nothing is handed up before the last datagram; when the
+// lengths are those a layout-following sender produces, what is handed up is exactly the bodies in
+// index order (for the other combinations the property only demands that the process survives).
+func zzC14kInconsistentLengths() {
+	seq := vf.U32("seq")
+	n := 2 + vf.Choose("segments", 2)
+	lens := [...]int{0, 1, 2, 5}
+	bodies := make([][]byte, n)
+	total := 0
+	for i := 0; i < n; i++ {
+		l := lens[vf.Choose("len."+string(rune('0'+i)), len(lens))]
+		bodies[i] = make([]byte, l)
+		for k := range bodies[i] {
+			bodies[i][k] = byte(16*(i+1) + k)
+		}
+		if l > 0 {
+			bodies[i][0] = vf.U8("first.byte." + string(rune('0'+i)))
+		}
+		total += l
+	}
+	order := [][]int{{0, 1, 2}, {2, 1, 0}, {1, 0, 2}, {2, 0, 1}}[vf.Choose("arrival.order", 4)]
+	rb := &ReadBuffers{ReadBuffer: map[uint32]*ReadBuffer{}, ReadBufferExpiry: time.Second}
+	var out []byte
+	handed := 0
+	early := false
+	seen := 0
+	panicked := vf.Panics(func() {
+		for _, i := range order {
+			if i >= n {
+				continue
+			}
+			m, done, _ := rb.Receive(zzHeader(seq, uint16(n-1), uint16(i), bodies[i]))
+			seen++
+			if done {
+				handed++
+				out = m
+				if seen < n {
+					early = true
+				}
+			}
+		}
+	})
+	vf.Assert("peer-supplied-lengths-never-panic", !panicked)
+	if panicked {
+		return
+	}
+	vf.Assert("nothing-handed-up-early", !early)
+	vf.Assert("handed-up-once", handed == 1)
+	// what a sender following the layout produces: every segment but the last equally long, the last
+	// one not longer; only for those does the property say what the bytes are
+	conforming := len(bodies[n-1]) <= len(bodies[0])
+	for i := 1; i < n-1; i++ {
+		conforming = conforming && len(bodies[i]) == len(bodies[0])
+	}
+	if handed == 1 && conforming {
+		vf.Assert("length-is-the-sum-of-the-bodies", len(out) == total)
+		ok := len(out) == total
+		if ok {
+			k := 0
+			for i := 0; i < n; i++ {
+				for _, b := range bodies[i] {
+					if out[k] != b {
+						ok = false
+					}
+					k++
+				}
+			}
+		}
+		vf.Assert("bytes-are-the-bodies-in-index-order", ok)
+	}
+	vf.Reach("end")
+}
